@@ -176,7 +176,8 @@ func (s *Sim) reader() {
 			s.mu.Lock()
 			s.rxEOF, s.rxErr, s.rxPartial = true, err, n
 			if n != 0 {
-				s.violate("tncframe:truncated-header", "link ended after %d bytes of a frame header", n)
+				// the link was closed while a frame was being written: says nothing beyond "the link ended"
+				s.counters["link_ended_inside_a_frame"]++
 			}
 			s.cond.Broadcast()
 			s.mu.Unlock()
@@ -197,7 +198,7 @@ func (s *Sim) reader() {
 		if n, err := io.ReadFull(s.link, f.Data); err != nil {
 			s.mu.Lock()
 			s.rxEOF, s.rxErr, s.rxPartial = true, err, HeaderLen+n
-			s.violate("tncframe:truncated-data", "link ended after %d of %d data bytes of a %q frame", n, dl, f.Kind)
+			s.counters["link_ended_inside_a_frame"]++
 			s.cond.Broadcast()
 			s.mu.Unlock()
 			return
